@@ -1,14 +1,13 @@
-\* C01 quick: one 3-slice ReliableOrdered message; every subset / order of deliveries of the 6 data packets
-\* (first transmission and one retransmission) and of the acks, then heal (with or without loss) and good rounds.
+\* C08 quick: two small messages, 2+2 flushes, acks and acks of acks, any loss
 SPECIFICATION Spec
 CONSTANTS
   ChSC <- Ch_RO
   ChCS <- Ch_RO
   Budget = 60000
-  Workload <- WL_RO_3slices
-  MaxFlushS = 1
+  Workload <- WL_RO_two_small
+  MaxFlushS = 2
   MaxFlushC = 2
-  MaxTicks = 1
+  MaxTicks = 0
   Dts = {300}
   MaxDeliver = 1
   HealDt = 300
@@ -17,7 +16,7 @@ CONSTANTS
   HealLose = {TRUE, FALSE}
   Reorder = TRUE
   RecvAnywhere = FALSE
-  PropsOn <- P_C01
+  PropsOn <- P_C08
   Export = TRUE
 INVARIANT NoFlag
 INVARIANT ExportInv
